@@ -34,6 +34,9 @@ type rig struct {
 	endedWhat      string
 	counters       func() (sent, received int64)
 	cleanup        func()
+	release        func()        // lets a stalled statistics backend go on (no-op otherwise)
+	statsHits      func() int64  // calls that reached the stalled backend
+	noCounters     bool          // the cross-node forward copies outside CopyWithControl: counters stay 0
 }
 
 func newConns(c Case) (aN, bN *vkit.BufConn, aS, bS *srvConn) {
@@ -68,11 +71,22 @@ func newDirectRig(c Case) *rig {
 	}
 	const tunnelID, mappingID = "tun-c02", "pm-c02"
 	src := session.CreateTunnelConnection("conn-src", r.aS, spA, 101, mappingID, tunnelID)
-	br := session.NewTunnelBridge(ctx, &session.TunnelBridgeConfig{
+	cfg := &session.TunnelBridgeConfig{
 		TunnelID: tunnelID, MappingID: mappingID,
 		SourceTunnelConn: src, SourceConn: r.aS, SourceStream: spA,
 		BandwidthLimit: c.Limit,
-	})
+	}
+	r.release = func() {}
+	r.statsHits = func() int64 { return 0 }
+	if c.StatsStall {
+		// traffic accounting is on and its backend hangs: the final report at close time never returns
+		// until the harness lets it
+		sc := newStallCloud()
+		cfg.CloudControl = sc
+		r.release = sc.release
+		r.statsHits = sc.hits
+	}
+	br := session.NewTunnelBridge(ctx, cfg)
 	tgt := session.CreateTunnelConnection("conn-tgt", r.bS, spB, 202, mappingID, tunnelID)
 	startDone := make(chan struct{})
 	started := false
@@ -86,6 +100,7 @@ func newDirectRig(c Case) *rig {
 	r.ended = func() bool { return isDone(startDone) }
 	r.counters = func() (int64, int64) { return br.GetBytesSent(), br.GetBytesReceived() }
 	r.cleanup = func() {
+		r.release()
 		br.Close()
 		cancel()
 		if started {
@@ -115,10 +130,56 @@ func connectWith(srv *miniserver.Server, near *vkit.BufConn, far *srvConn) (*min
 	return &miniserver.Client{Srv: srv, ConnID: sc.ID, Near: near, Far: far.BufConn, SP: stream.NewStreamProcessor(near, near, context.Background())}, nil
 }
 
-func tunnelOpen(cl *miniserver.Client, req *packet.TunnelOpenRequest) error {
+// peer is one tunnel connection of a client: its packets are either handed to the dispatcher (what
+// the TCP adapter's read loop does) or really written on the wire (WebSocket transport: the module's
+// own loop reads them).
+type peer struct {
+	cl   *miniserver.Client
+	wire bool
+}
+
+func (p *peer) send(pkt *packet.TransferPacket) error {
+	if p.wire {
+		_, err := p.cl.SP.WritePacket(pkt, false, 0)
+		return err
+	}
+	p.cl.Push(pkt) // a "switch to stream mode" error is the success answer for TunnelOpen
+	return nil
+}
+
+func (p *peer) handshake(req *packet.HandshakeRequest) (*packet.HandshakeResponse, error) {
 	b, _ := json.Marshal(req)
-	// the dispatcher answers with a "switch to stream mode" error on success; the ack tells
-	cl.Push(&packet.TransferPacket{PacketType: packet.TunnelOpen, Payload: b})
+	if err := p.send(&packet.TransferPacket{PacketType: packet.Handshake, Payload: b}); err != nil {
+		return nil, err
+	}
+	return p.cl.RecvHandshakeResp(3 * time.Second)
+}
+
+// login is the two-phase challenge-response handshake of a "tunnel" connection.
+func (p *peer) login(id int64, secret string) error {
+	r1, err := p.handshake(&packet.HandshakeRequest{ClientID: id, Version: "2.0", Protocol: "tcp", ConnectionType: "tunnel"})
+	if err != nil {
+		return err
+	}
+	if r1.NeedResponse && r1.Challenge != "" {
+		r1, err = p.handshake(&packet.HandshakeRequest{ClientID: id, Version: "2.0", Protocol: "tcp", ConnectionType: "tunnel",
+			ChallengeResponse: miniserver.ComputeResponse(secret, r1.Challenge)})
+		if err != nil {
+			return err
+		}
+	}
+	if !r1.Success {
+		return fmt.Errorf("login refused: %+v", r1)
+	}
+	return nil
+}
+
+func tunnelOpen(p *peer, req *packet.TunnelOpenRequest) error {
+	cl := p.cl
+	b, _ := json.Marshal(req)
+	if err := p.send(&packet.TransferPacket{PacketType: packet.TunnelOpen, Payload: b}); err != nil {
+		return err
+	}
 	deadline := time.Now().Add(3 * time.Second)
 	for {
 		p, err := cl.Recv(time.Until(deadline))
@@ -257,6 +318,8 @@ func newMiniRig(c Case) (*rig, *failure) {
 	}
 	r.cleanup = func() { srv.Close() }
 	r.start = func() *failure { return nil }
+	r.release = func() {}
+	r.statsHits = func() int64 { return 0 }
 	fail := func(what string, err error) (*rig, *failure) {
 		r.aN.Close()
 		r.bN.Close()
@@ -304,14 +367,40 @@ func newMiniRig(c Case) (*rig, *failure) {
 	if err != nil {
 		return fail("create mapping", err)
 	}
-	tunnelID := fmt.Sprintf("tun-c02-%d", miniSeq.Add(1))
-	tunA, err := connectWith(srv, r.aN, r.aS)
-	if err != nil {
-		return fail("connect tunnel A", err)
+	tunnelID := fmt.Sprintf("tc02-%d", miniSeq.Add(1)) // <= 16 bytes: the cross-node frame header truncates longer ids
+	// a tunnel connection is accepted by the session directly (stream transport), or arrives through
+	// the HTTP service's WebSocket module, or (target only) is attached on another node
+	var links []interface{ close() }
+	closeLinks := func() {
+		for _, l := range links {
+			l.close()
+		}
 	}
-	tunB, err := connectWith(srv, r.bN, r.bS)
-	if err != nil {
-		return fail("connect tunnel B", err)
+	mkPeer := func(which string, near *vkit.BufConn, far *srvConn) (*peer, error) {
+		if c.WSEnd == which {
+			l, err := dialWS(srv.SM, far.BufConn)
+			if err != nil {
+				return nil, err
+			}
+			links = append(links, l)
+			return &peer{wire: true, cl: &miniserver.Client{Srv: srv, Near: near, Far: far.BufConn, SP: stream.NewStreamProcessor(near, near, context.Background())}}, nil
+		}
+		cl, err := connectWith(srv, near, far)
+		if err != nil {
+			return nil, err
+		}
+		return &peer{cl: cl}, nil
+	}
+	var tunA, tunB *peer
+	var xl *crossLink
+	xport := 0
+	if c.CrossNode {
+		r.noCounters = true
+		xl, xport, err = startCrossNodeListener(srv.SM)
+		if err != nil {
+			return fail("cross-node listener", err)
+		}
+		links = append(links, xl)
 	}
 	req := &packet.TunnelOpenRequest{MappingID: m.ID, TunnelID: tunnelID, SecretKey: secret}
 	var br *session.TunnelBridge
@@ -328,12 +417,18 @@ func newMiniRig(c Case) (*rig, *failure) {
 	}
 	r.start = func() *failure {
 		// as a client does: tunnel-type handshake and TunnelOpen back to back on a fresh connection
-		if resp, err := tunA.Login(ctlA.ClientID, ctlA.Secret, "tunnel"); err != nil || resp == nil || !resp.Success {
-			return harnessFail("login tunnel A", fmt.Errorf("%v %+v", err, resp))
+		var err error
+		if tunA, err = mkPeer("A", r.aN, r.aS); err != nil {
+			return harnessFail("connect tunnel A", err)
+		}
+		if err := tunA.login(ctlA.ClientID, ctlA.Secret); err != nil {
+			return harnessFail("login tunnel A", err)
 		}
 		if err := tunnelOpen(tunA, req); err != nil {
 			return harnessFail("source TunnelOpen", err)
 		}
+		// (over a real transport the ack is on the wire before the handler has registered the bridge)
+		waitFor(3*time.Second, func() bool { return srv.SM.GetTunnelBridgeByMappingID(m.ID, 0) != nil })
 		acc := srv.SM.GetTunnelBridgeByMappingID(m.ID, 0)
 		b, ok := acc.(*session.TunnelBridge)
 		if acc == nil || !ok || b == nil {
@@ -344,11 +439,25 @@ func newMiniRig(c Case) (*rig, *failure) {
 		return nil
 	}
 	r.attach = func() *failure {
-		if resp, err := tunB.Login(ctlB.ClientID, ctlB.Secret, "tunnel"); err != nil || resp == nil || !resp.Success {
-			return harnessFail("login tunnel B", fmt.Errorf("%v %+v", err, resp))
+		if c.CrossNode {
+			// the target is attached on another node, which forwards it to this node's listener
+			if err := xl.attachRemoteTarget(xport, tunnelID, r.bS.BufConn); err != nil {
+				return harnessFail("cross-node attach", err)
+			}
+			r.bN.ReadCap.Store(capB)
+			return nil
+		}
+		var err error
+		if tunB, err = mkPeer("B", r.bN, r.bS); err != nil {
+			return harnessFail("connect tunnel B", err)
+		}
+		if err := tunB.login(ctlB.ClientID, ctlB.Secret); err != nil {
+			return harnessFail("login tunnel B", err)
 		}
 		b, _ := json.Marshal(req)
-		tunB.Push(&packet.TransferPacket{PacketType: packet.TunnelOpen, Payload: b})
+		if err := tunB.send(&packet.TransferPacket{PacketType: packet.TunnelOpen, Payload: b}); err != nil {
+			return harnessFail("target TunnelOpen", err)
+		}
 		if f := awaitTargetAck(r.bN, tunnelID); f != nil {
 			return f
 		}
@@ -362,9 +471,14 @@ func newMiniRig(c Case) (*rig, *failure) {
 		if br != nil {
 			br.Close()
 		}
-		tunA.SP.Close()
-		tunB.SP.Close()
+		if tunA != nil {
+			tunA.cl.SP.Close()
+		}
+		if tunB != nil {
+			tunB.cl.SP.Close()
+		}
 		waitFor(5*time.Second, func() bool { return !known() })
+		closeLinks()
 		srv.Close()
 	}
 	return r, nil
